@@ -23,8 +23,55 @@ ASSUMPTIONS = ["the fresh twin is constructed with the same seed (k-means / tree
 PRIOR = ["fit", "partial_fit", "partial_fit", "add_arm", "remove_arm", "warm_start", "predict", "predict_expectations"]
 
 
+def run_buffer_reuse(rs, ctx, l, p):
+    """the caller keeps pre-allocated arrays and overwrites them in place with the next data set before calling fit again:
+    a legal way to present 'new data D', and the one in which the stored history aliases the caller's buffers"""
+    import numpy as np
+    cfg = gen.gen_cfg(rs, l, p, labels=gen.pick(rs, ["int", "str", "float"]), n_arms=int(rs.integers(2, 5)))
+    nf = int(gen.pick(rs, [2, 3]))
+    n = int(rs.integers(max(10, gen.min_rows(cfg) + 4), 25))
+    D0 = gen.gen_batch(rs, cfg, cfg["arms"], n, nf, distinct_rows=6)
+    D1 = gen.gen_batch(rs, cfg, cfg["arms"], n, nf, distinct_rows=6)
+    bd, br = np.asarray(D0["d"]), np.asarray(D0["r"], dtype=float)
+    bX = np.ascontiguousarray(np.asarray(D0["X"], dtype=float)) if D0["X"] is not None else None
+    M = gen.build(cfg)
+    sh = gen.Shadow(cfg, nf)
+    sh.fitted, sh.rows = True, n
+    q = gen.gen_ops(rs, cfg, sh, 2, ["predict", "predict_expectations"])
+    wit = {"cfg": cfg, "mode": "buffer_reuse", "D0": D0, "D1": D1, "queries": q}
+    try:
+        M.fit(bd, br, bX) if bX is not None else M.fit(bd, br)
+        gen.run_ops(M, q)
+        bd[:] = np.asarray(D1["d"])
+        br[:] = np.asarray(D1["r"], dtype=float)
+        if bX is not None:
+            bX[:] = np.asarray(D1["X"], dtype=float)
+        F = gen.build(cfg)
+        rngs.graft(M, F)
+        M.fit(bd, br, bX) if bX is not None else M.fit(bd, br)
+        gen.apply_op(F, dict(D1, op="fit"))
+    except Exception as ex:  # noqa: BLE001
+        ctx.violation("%s: refit from re-used buffers raised %s: %s" % (gen.cfg_sig(cfg), type(ex).__name__, str(ex)[:80]), wit)
+        return
+    rngs.graft(M, F)
+    cont = [{"op": "cold_arms"}] + gen.gen_ops(rs, cfg, copy.deepcopy(sh), 2, ["predict_expectations", "predict"]) + \
+        gen.gen_continuation(rs, cfg, sh)
+    wit["continuation"] = cont
+    ctx.ev(2)
+    d = twin.first_diff(gen.run_ops(M, cont), gen.run_ops(F, cont))
+    if d:
+        ctx.violation("%s: bandit re-fitted from the caller's re-used (overwritten) arrays differs from a fresh bandit fit on the same "
+                      "data: %s" % (gen.cfg_sig(cfg), d), wit, kind="buffer_reuse|" + gen.cfg_sig(cfg))
+        return
+    ctx.count("buffer_reuse_cases")
+    ctx.nt(gen.cfg_sig(cfg), "buffer_reuse", n, nf)
+    ctx.sample({"cfg": cfg, "mode": "buffer_reuse: fit(buffers), queries, overwrite buffers in place, fit(buffers)", "rows": n})
+
+
 def run_case(rs, ctx):
     l, p = gen.ALL_COMBOS[ctx.index % 48]
+    if (ctx.index // 48) % 5 == 3:
+        return run_buffer_reuse(rs, ctx, l, p)
     cfg = gen.gen_cfg(rs, l, p, labels=gen.pick(rs, ["int", "str", "float"]), n_arms=int(rs.integers(2, 5)),
                       with_probs=bool(rs.integers(4) == 0))
     nf0 = int(gen.pick(rs, [2, 3]))
